@@ -1,5 +1,6 @@
 CONSTANTS
   GC = FALSE
+  NonTailIf = FALSE
   Family = "fault"
   MaxKont = 16
 SPECIFICATION Spec
